@@ -120,9 +120,15 @@ CodeAgrees(w, W, H)   == \A p \in Positions(w, W, H) : CodeSrcIdx(w, W, H, p[1],
 \* function Pix(pat, x, y, k) - the code of component k of the input pixel in column x of input row y - and a case carries only
 \* the pattern id.  Strides are co-prime to the modulus and a second term changes every 251 columns / rows, so that a shift by
 \* any number of columns, rows or channels changes values (PixLaws).  Codes stay in 0..250 (a byte; the float (c - 100) / 4).
-Coef == << <<7, 13, 5, 3, 11, 0>>, <<29, 3, 17, 1, 7, 100>> >>
+\* Pattern 3 works modulo 256, so that every byte value 251..255 occurs as well.  Patterns 100 + v (v in 0..255) are the
+\* *sweep* patterns for tiny images: component 0 of the first input pixel is v, so that over all v every byte value occurs at the
+\* first and at the last position of rows and of the payload, whatever the flip and the channel selection.
+Coef == << <<7, 13, 5, 3, 11, 0, 251>>, <<29, 3, 17, 1, 7, 100, 251>>, <<7, 13, 5, 3, 11, 0, 256>> >>
 Patterns == DOMAIN Coef
-Pix(pat, x, y, k) == LET a == Coef[pat] IN (a[1] * x + a[2] * y + a[3] * k + a[4] * (x \div 251) + a[5] * (y \div 251) + a[6]) % 251
+SweepPatterns == 100..355
+Pix(pat, x, y, k) ==
+  IF pat \in SweepPatterns THEN ((pat - 100) + 64 * (x + 2 * y) + 13 * k) % 256
+  ELSE LET a == Coef[pat] IN (a[1] * x + a[2] * y + a[3] * k + a[4] * (x \div 251) + a[5] * (y \div 251) + a[6]) % a[7]
 
 \* the input as the flat component index sees it, and the decoded file through the SAME index map as for small images
 InPix(w, W, pat, i) == Pix(pat, (i \div PixComp(w)) % W, i \div (PixComp(w) * W), i % PixComp(w))
@@ -130,15 +136,16 @@ DecodedAt(w, W, H, pat, row, col, ch) == InPix(w, W, pat, SrcIdx(w, W, H, row, c
 
 \* a shift by one, by a block of 256 / 512 / 768 / 1024 / 2048 / 2049 columns or rows, or to another channel is visible
 PixLaws == \A pat \in Patterns :
-  /\ \A x \in 0..1100, y \in 0..2, k \in 0..3 : Pix(pat, x, y, k) \in 0..250
+  /\ \A x \in 0..1100, y \in 0..2, k \in 0..3 : Pix(pat, x, y, k) \in 0..(Coef[pat][7] - 1)
   /\ \A d \in {1, 2, 3, 255, 256, 257, 512, 768, 1023, 1024, 1025, 2048, 2049} : \A x \in 0..2100 :
         /\ Pix(pat, x + d, 0, 0) # Pix(pat, x, 0, 0)
         /\ Pix(pat, 0, x + d, 0) # Pix(pat, 0, x, 0)
   /\ \A x \in 0..600, k1, k2 \in 0..3 : k1 # k2 => Pix(pat, x, 1, k1) # Pix(pat, x, 1, k2)
-  /\ \A x \in 0..250, y \in 0..250 : x # y => Pix(pat, x, y, 0) # Pix(pat, y, x, 0)                     \* rows are not columns
+  /\ \A x \in 0..120, y \in 0..120 : x # y => Pix(pat, x, y, 0) # Pix(pat, y, x, 0)                     \* rows are not columns
 
 \* positions compared sample by sample: both sides of every block boundary and both ends
-Near(n) == {i \in (0..2) \cup (255..257) \cup (767..769) \cup (1022..1026) \cup (2046..2050) \cup ((n - 3)..(n - 1)) : i >= 0 /\ i < n}
+Near(n) == {i \in (0..2) \cup (127..129) \cup (255..257) \cup (511..513) \cup (767..769) \cup (1022..1026) \cup (2046..2050) \cup (4094..4098)
+                 \cup (65534..65538) \cup ((n - 3)..(n - 1)) : i >= 0 /\ i < n}
 SampleRows(H) == IF H <= 3 THEN 0..(H - 1) ELSE Near(H)
 SampleCols(W) == IF W <= 3 THEN 0..(W - 1) ELSE Near(W)
 
@@ -146,4 +153,9 @@ SampleCols(W) == IF W <= 3 THEN 0..(W - 1) ELSE Near(W)
 \* order, modulo the prime 65521 (all intermediate values stay below 2^31)
 Prime == 65521
 RowVals(w, W, H, pat, row) == [i \in 1..(W * OutComp(w)) |-> DecodedAt(w, W, H, pat, row, (i - 1) \div OutComp(w), (i - 1) % OutComp(w))]
+\* sweep patterns: the first input component runs through every byte value, and two sweep patterns never agree anywhere
+SweepLaws == /\ \A v \in 0..255 : Pix(100 + v, 0, 0, 0) = v
+             /\ \A x \in 0..1, y \in 0..1, k \in 0..3 : {Pix(100 + v, x, y, k) : v \in 0..255} = 0..255
+             /\ \A p \in {<<x, y, k>> : x \in 0..1, y \in 0..1, k \in 0..3}, q \in {<<x, y, k>> : x \in 0..1, y \in 0..1, k \in 0..3} :
+                   p # q => Pix(100, p[1], p[2], p[3]) # Pix(100, q[1], q[2], q[3])
 ===============================================================================
